@@ -49,6 +49,7 @@ import (
 	"encoding/binary"
 	"fmt"
 	"os"
+	"runtime/debug"
 	"sort"
 	"strings"
 	"time"
@@ -358,18 +359,50 @@ func vsmNewMachine(ver protocol.ConsensusVersion, r round) *vsmMachine {
 
 func (m *vsmMachine) player() *player { return m.rr.root.underlying().(*player) }
 
-func vsmPanicClass(r interface{}) string {
+// vsmPanicClass maps a recovered Go panic to the model's panic class.  A panic raised below
+// voteAggregator.handle / proposalManager.handleMessageEvent is MASKED: their deferred
+// logVoteAggregatorResult / logProposalManagerResult calls output.t() on the nil result and panics again
+// with a nil pointer dereference, which is what recover() sees.  The class is therefore derived from
+// the stack (the frame that called Panicf), falling back to the message.
+func vsmPanicClass(r interface{}, stack string) string {
 	msg := fmt.Sprint(r)
 	if ent, ok := r.(*logrus.Entry); ok {
 		msg = ent.Message
 	}
+	if i := strings.Index(stack, "logger.Panicf("); i >= 0 {
+		// first agreement frame above Panicf
+		rest := stack[i:]
+		for _, line := range strings.Split(rest, "\n") {
+			if !strings.HasPrefix(line, "github.com/algorand/go-algorand/agreement.") {
+				continue
+			}
+			switch {
+			case strings.Contains(line, "serviceLogger"):
+				continue
+			case strings.Contains(line, "overThreshold"):
+				return "two_values"
+			case strings.Contains(line, "makeBundle"):
+				return "makeBundle"
+			case strings.Contains(line, "(*voteTracker).handle"):
+				return "equivocators"
+			case strings.Contains(line, "checkedListener.handle"):
+				return "contract"
+			case strings.Contains(line, "(*proposalStore).handle"):
+				return "assemblers"
+			case strings.Contains(line, "(*voteAggregator).handle"):
+				return "bad_round"
+			case strings.Contains(line, "fresherThan"):
+				return "other"
+			}
+			break
+		}
+	}
 	switch {
-	case strings.Contains(msg, "nil pointer dereference"):
+	case strings.Contains(stack, "(*periodRouter).dispatch(0x0") || strings.Contains(stack, "(*roundRouter).dispatch(0x0") ||
+		strings.Contains(stack, "(*periodRouter).update(...)"):
 		return "nil_router"
-	case strings.Contains(msg, "precondition violated"):
-		return "pre"
-	case strings.Contains(msg, "postcondition violated"):
-		return "post"
+	case strings.Contains(msg, "precondition violated") || strings.Contains(msg, "postcondition violated"):
+		return "contract"
 	case strings.Contains(msg, "too many equivocators"):
 		return "equivocators"
 	case strings.Contains(msg, "more than value reached"):
@@ -386,6 +419,8 @@ func vsmPanicClass(r interface{}) string {
 		return "cast"
 	case strings.Contains(msg, "divide by zero"):
 		return "div"
+	case strings.Contains(msg, "nil pointer dereference"):
+		return "nil_router"
 	}
 	return "other"
 }
@@ -394,8 +429,12 @@ func vsmPanicClass(r interface{}) string {
 func (m *vsmMachine) submit(e event) (acts []action, panicClass string, panicMsg string) {
 	defer func() {
 		if r := recover(); r != nil {
-			panicClass = vsmPanicClass(r)
+			stack := string(debug.Stack())
+			panicClass = vsmPanicClass(r, stack)
 			panicMsg = fmt.Sprint(r)
+			if os.Getenv("VERIF_SM_STACK") != "" {
+				fmt.Fprintf(os.Stderr, "VSM PANIC %s: %v\n%s\n", panicClass, r, stack)
+			}
 			if ent, ok := r.(*logrus.Entry); ok {
 				panicMsg = ent.Message
 			}
